@@ -95,7 +95,12 @@ package bgp
 //@   claims bounds div0 make post
 //@   ensures result != nil ==> isMsgErr(result)
 //@ func (*LsTLVFlexAlgoDef).DecodeFromBytes
-//@   claims bounds div0 make post
+//@   claims inv-init inv-keep bounds div0 make post
+//@   loop 1 invariant i >= 0 && i <= slen
+//@   loop 2 invariant i >= 0 && i <= slen
+//@   loop 3 invariant i >= 0 && i <= slen
+//@   loop 4 invariant i >= 0 && i <= slen
+//@   loop 5 invariant i >= 0 && i <= len(body)
 //@   ensures result != nil ==> isMsgErr(result)
 //@ func (*LsTLVIGPFlags).DecodeFromBytes
 //@   claims bounds div0 make post
